@@ -9,6 +9,8 @@ Plain composites of probe moves are *called* and the call log is compared as wel
 Probe elements also return values that are truthy / falsy without being bool (None, 0,
 2, '', numpy bools, lists).
 The leaves include user subclasses of the shipped displacement and exchange moves (which are of those kinds).
+Operation expressions also contain a protocol-only operation (inherits nothing) wherever Python can dispatch the
+arithmetic (to the right of a +).
 """
 from __future__ import annotations
 
@@ -33,7 +35,7 @@ ASSUMPTIONS = [
     "int * composite (reflected multiplication of an already composite object) is not part of the statement and is not judged",
     "bool multipliers are ints in Python and are not judged",
 ]
-REQUIRED = {"calls_with_non_bool_results": 100, "nodes_checked": 1000, "calls_checked": 50, "bad_multipliers_refused": 10, "op_nodes_checked": 200}
+REQUIRED = {"op_expressions_with_a_protocol_only_operation": 500, "calls_with_non_bool_results": 100, "nodes_checked": 1000, "calls_checked": 50, "bad_multipliers_refused": 10, "op_nodes_checked": 200}
 SHARD_TIMEOUT = {"quick": 600, "thorough": 1800}
 
 KINDS = ["D1", "D2", "E1", "E2", "C", "H", "G", "Ds", "Es"]
@@ -441,6 +443,29 @@ def run_ops(spec, rec):
         "Iso": IsotropicDeformation(0.05),
         "Aniso": AnisotropicDeformation(0.05),
     }
+    class BareOperation:
+        """A user's operation that satisfies the Operation protocol without inheriting from anything."""
+
+        def calculate(self, context):
+            return np.zeros((1, 3))
+
+        def to_dict(self):
+            return {"name": "BareOperation"}
+
+        @classmethod
+        def from_dict(cls, data):
+            return cls()
+
+    leaves["Bare"] = BareOperation()
+
+    def in_domain(e):
+        # a protocol-only operation defines no arithmetic of its own: it can only stand to the right of a +
+        if e[0] == "leaf":
+            return True
+        if e[0] == "add":
+            return e[1] != ("leaf", "Bare") and in_domain(e[1]) and in_domain(e[2])
+        return e[1] != ("leaf", "Bare") and in_domain(e[1])
+
     ev = Eval(rec, leaves, "ops")
     kinds = list(leaves)
     for L in range(1, spec["L"] + 1):
@@ -451,10 +476,14 @@ def run_ops(spec, rec):
                 for n in (1, 2, 3):
                     muls.append({p: (n, False)})
                     muls.append({p: (n, True)})
-            combos = itertools.product(kinds[:4] if L == 4 else kinds, repeat=L)
+            combos = itertools.product([*kinds[:3], "Bare"] if L == 4 else kinds, repeat=L)
             for ks in combos:
                 for mul in muls:
                     e = build(shape, iter(ks), mul)
+                    if not in_domain(e):
+                        continue
+                    if "Bare" in ks:
+                        rec.count("op_expressions_with_a_protocol_only_operation")
                     check_expr(ev, rec, e, L, bool(mul))
 
 
